@@ -293,7 +293,7 @@ impl CaseEngine for C31 {
         args.u64("n", if args.thorough() { 300 } else { 30 }) as usize
     }
     fn case_timeout_s(&self, _args: &Args) -> u64 {
-        600
+        300
     }
     fn alloc_cap(&self) -> usize {
         0
@@ -413,7 +413,7 @@ impl CaseEngine for SimLog {
         0
     }
     fn case_timeout_s(&self, _args: &Args) -> u64 {
-        600
+        300
     }
     fn run_case(&self, args: &Args, case: usize, rep: &mut Report, _p: &dyn Fn(&str)) {
         let seed = derive(args.u64("seed", 1), &[tag("simlog"), case as u64]);
